@@ -195,6 +195,7 @@ pub fn worker<P: Property>(args: &[String]) -> i32 {
     let tmp = out.with_extension("tmp");
     fs::write(&tmp, serde_json::to_vec(&w).unwrap()).unwrap();
     fs::rename(&tmp, &out).unwrap();
+    scratch_cleanup();
     0
 }
 
@@ -394,6 +395,7 @@ pub fn minimise<P: Property>(args: &[String]) -> i32 {
     }
     let out = MinOut { scenario: serde_json::to_value(&cur).unwrap(), evals, accepted };
     fs::write(&args[1], serde_json::to_vec(&out).unwrap()).unwrap();
+    scratch_cleanup();
     0
 }
 
@@ -446,6 +448,7 @@ pub fn replay_child(args: &[String]) -> i32 {
         "C14" => go::<crate::C14>(rf.scenario),
         p => Err(format!("unknown property {p}")),
     };
+    scratch_cleanup();
     match rr {
         Ok(rr) => {
             let o = ChildOut { violations: rr.violations, ledger: rr.ledger.to_map(), notes: rr.notes, events: rr.events, log_hash: rr.log_hash };
@@ -795,7 +798,7 @@ fn sanitize(s: &str) -> String {
 }
 
 fn expected_probes<P: Property>() -> Vec<&'static str> {
-    let mut v = vec![
+    let mut v: Vec<&'static str> = vec![
         "read error fired",
         "EINTR immediately before EOF",
         "BufReader refilled >= 2x",
@@ -803,6 +806,7 @@ fn expected_probes<P: Property>() -> Vec<&'static str> {
         "damaged file still well-formed (X applied after storage fault)",
         "early EOF: streamed result compared with parse of the delivered prefix",
     ];
+    v.push(if P::ID == "C13" { "path wrappers cross-checked on the real file system" } else { "path wrapper cross-checked on the real file system" });
     if P::ID == "C13" {
         v.extend([
             "header with w*h >= 2^32",
